@@ -135,6 +135,10 @@ pub struct Plan {
     pub ops: Vec<Op>,
     /// probe dates for calendars (seconds)
     pub probes: Vec<i64>,
+    /// exact datetimes (seconds, nanoseconds) asked for membership only: holidays that are
+    /// not at midnight, and the same second with another fraction
+    #[serde(default)]
+    pub probes_exact: Vec<(i64, u32)>,
 }
 
 // ------------------------------------------------------------------ generation
@@ -177,6 +181,23 @@ fn insert_restarts(rng: &mut Rng, ops: &mut Vec<Op>, partner: bool) {
     }
 }
 
+fn exact_probes(rng: &mut Rng, cals: &[&CalSpec]) -> Vec<(i64, u32)> {
+    let mut odd: Vec<(i64, u32)> = cals
+        .iter()
+        .flat_map(|c| c.holidays.iter().cloned())
+        .filter(|(s, n)| s.rem_euclid(DAY) != 0 || *n != 0)
+        .collect();
+    rng.shuffle(&mut odd);
+    odd.truncate(8);
+    let mut out = Vec::new();
+    for (s, n) in odd {
+        out.push((s, n));
+        out.push((s, if n == 0 { 500_000_000 } else { 0 }));
+        out.push((s - s.rem_euclid(DAY), 0));
+    }
+    out
+}
+
 fn probe_dates(rng: &mut Rng, cals: &[&CalSpec]) -> Vec<i64> {
     let mut out = Vec::new();
     let mut hols: Vec<i64> = cals
@@ -215,7 +236,29 @@ pub fn generate(rng: &mut Rng, tier: Tier) -> Plan {
                 }
             };
             let dual: Vec<Fx> = (0..n).map(|_| Fx::new(f(rng))).collect();
-            let dual2: Vec<Fx> = (0..n * n).map(|_| Fx::new(f(rng))).collect();
+            let mut dual2: Vec<Fx> = (0..n * n).map(|_| Fx::new(f(rng))).collect();
+            // sparsity patterns of a caller-owned block: packed triangles, diagonal, one
+            // entry, all zero (of either sign)
+            if rng.chance(0.2) {
+                let pat = rng.below(8);
+                let one = (rng.below(n as u64) as usize, rng.below(n as u64) as usize);
+                for i in 0..n {
+                    for j in 0..n {
+                        let keep = match pat {
+                            0 => i >= j,
+                            1 => i > j,
+                            2 => i <= j,
+                            3 => i < j,
+                            4 => i == j,
+                            5 => (i, j) == one,
+                            _ => false,
+                        };
+                        if !keep {
+                            dual2[i * n + j] = Fx::new(if pat == 7 { -0.0 } else { 0.0 });
+                        }
+                    }
+                }
+            }
             let mut ops: Vec<Op> = (0..rng.usize_in(0, 2))
                 .map(|_| Op::Combine(rng.below(4) as u8))
                 .collect();
@@ -231,6 +274,7 @@ pub fn generate(rng: &mut Rng, tier: Tier) -> Plan {
                 },
                 ops,
                 probes: vec![],
+                probes_exact: vec![],
             }
         }
         7 => {
@@ -272,6 +316,7 @@ pub fn generate(rng: &mut Rng, tier: Tier) -> Plan {
                 obj: ObjSpec::NumberPair { a, b },
                 ops,
                 probes: vec![],
+                probes_exact: vec![],
             }
         }
         0 => {
@@ -321,6 +366,7 @@ pub fn generate(rng: &mut Rng, tier: Tier) -> Plan {
                 },
                 ops,
                 probes: vec![],
+                probes_exact: vec![],
             }
         }
         1 => {
@@ -333,12 +379,14 @@ pub fn generate(rng: &mut Rng, tier: Tier) -> Plan {
                 rng.shuffle(&mut c.mask);
             }
             let probes = probe_dates(rng, &[&c]);
+            let probes_exact = exact_probes(rng, &[&c]);
             let mut ops = vec![];
             insert_restarts(rng, &mut ops, false);
             Plan {
                 obj: ObjSpec::Cal(c),
                 ops,
                 probes,
+                probes_exact,
             }
         }
         2 => {
@@ -360,23 +408,27 @@ pub fn generate(rng: &mut Rng, tier: Tier) -> Plan {
                 .chain(u.settle.iter().flatten())
                 .collect();
             let probes = probe_dates(rng, &all);
+            let probes_exact = exact_probes(rng, &all);
             let mut ops = vec![];
             insert_restarts(rng, &mut ops, false);
             Plan {
                 obj: ObjSpec::Union(u),
                 ops,
                 probes,
+                probes_exact,
             }
         }
         3 => {
             let name = gen_named(rng);
             let probes = probe_dates(rng, &[]);
+            let probes_exact = vec![];
             let mut ops = vec![];
             insert_restarts(rng, &mut ops, false);
             Plan {
                 obj: ObjSpec::Named(name),
                 ops,
                 probes,
+                probes_exact,
             }
         }
         4 => {
@@ -428,6 +480,7 @@ pub fn generate(rng: &mut Rng, tier: Tier) -> Plan {
                 },
                 ops,
                 probes: vec![],
+                probes_exact: vec![],
             }
         }
         5 => {
@@ -460,6 +513,7 @@ pub fn generate(rng: &mut Rng, tier: Tier) -> Plan {
                 obj: ObjSpec::Fx(setup),
                 ops,
                 probes: vec![],
+                probes_exact: vec![],
             }
         }
         _ => {
@@ -489,6 +543,7 @@ pub fn generate(rng: &mut Rng, tier: Tier) -> Plan {
                 },
                 ops,
                 probes: vec![],
+                probes_exact: vec![],
             }
         }
     }
@@ -1094,6 +1149,21 @@ pub fn cal_answers<C: DateRoll>(c: &C, probes: &[i64]) -> Vec<(String, u64)> {
     out
 }
 
+fn exact_answers<C: DateRoll>(c: &C, probes: &[(i64, u32)], out: &mut Vec<(String, u64)>) {
+    for (s, n) in probes {
+        let d = match chrono::DateTime::from_timestamp(*s, *n) {
+            Some(d) => d.naive_utc(),
+            None => continue,
+        };
+        let mut h = Fnv::new();
+        h.u64(c.is_weekday(&d) as u64);
+        h.u64(c.is_holiday(&d) as u64);
+        h.u64(c.is_bus_day(&d) as u64);
+        h.u64(c.is_settlement(&d) as u64);
+        out.push((format!("calendar membership at exactly {}", d), h.finish()));
+    }
+}
+
 fn num_answers(label: &str, n: &Number, out: &mut Vec<(String, u64)>) {
     let s = see(n);
     let mut h = Fnv::new();
@@ -1182,8 +1252,14 @@ fn answers(o: &Obj, plan: &Plan) -> Vec<(String, u64)> {
             num_answers("X", x, &mut out);
             num_answers("Y", y, &mut out);
         }
-        Obj::Cal(c) => out = cal_answers(c, &plan.probes),
-        Obj::Union(c) => out = cal_answers(c, &plan.probes),
+        Obj::Cal(c) => {
+            out = cal_answers(c, &plan.probes);
+            exact_answers(c, &plan.probes_exact, &mut out);
+        }
+        Obj::Union(c) => {
+            out = cal_answers(c, &plan.probes);
+            exact_answers(c, &plan.probes_exact, &mut out);
+        }
         Obj::Named(c) => out = cal_answers(c, &plan.probes),
         Obj::Curve(c) => {
             if let ObjSpec::Big { n, .. } = &plan.obj {
@@ -2328,6 +2404,7 @@ impl Scenario for C16 {
                 obj: ObjSpec::Big { what, n, members },
                 ops: vec![Op::Restart { medium, which: 0 }],
                 probes: vec![946_684_800, 946_684_800 + 86_400 * 3, 4_102_444_800],
+                probes_exact: vec![],
             });
             return;
         }
